@@ -31,6 +31,7 @@ import (
 	api_v1 "k8s.io/api/core/v1"
 	networking "k8s.io/api/networking/v1"
 	meta_v1 "k8s.io/apimachinery/pkg/apis/meta/v1"
+	"k8s.io/apimachinery/pkg/types"
 
 	"github.com/nginx/kubernetes-ingress/internal/configs"
 	"github.com/nginx/kubernetes-ingress/internal/configs/version1"
@@ -52,6 +53,7 @@ type Op struct {
 	Type    string `json:"type,omitempty"`
 	Payload string `json:"payload,omitempty"`
 	Salt    int    `json:"salt,omitempty"`
+	UID     int    `json:"uid,omitempty"` // generation of the API object under this key: a re-created Secret has a new UID
 	Ann     string `json:"ann,omitempty"` // force: jwt | basic | both | master | minion | xminion-basic | xminion-jwt
 	MNS     string `json:"mns,omitempty"` // force xminion-*: the namespace of the master (the minion lives in NS)
 	Valid   bool   `json:"valid"`
@@ -267,7 +269,7 @@ func buildData(typ, payload string, salt int) map[string][]byte {
 
 func mkSecret(o Op) *api_v1.Secret {
 	return &api_v1.Secret{
-		ObjectMeta: meta_v1.ObjectMeta{Namespace: o.NS, Name: o.Name},
+		ObjectMeta: meta_v1.ObjectMeta{Namespace: o.NS, Name: o.Name, UID: types.UID(fmt.Sprintf("uid-%d", o.UID))},
 		Type:       api_v1.SecretType(o.Type),
 		Data:       buildData(o.Type, o.Payload, o.Salt),
 	}
@@ -608,6 +610,11 @@ func runCtl(s *sut, c *Case) {
 func cput(k keyT, typ, payload string, salt int) Op {
 	return Op{Op: "cput", NS: k.ns, Name: k.name, Type: typ, Payload: payload, Salt: salt}
 }
+func cputU(k keyT, typ, payload string, salt, uid int) Op {
+	o := cput(k, typ, payload, salt)
+	o.UID = uid
+	return o
+}
 func cdel(k keyT) Op { return Op{Op: "cdel", NS: k.ns, Name: k.name} }
 
 var drain = Op{Op: "drain"}
@@ -651,6 +658,7 @@ func genCtl(r *vh.Rng, id int) Case {
 		}
 		return newType0()
 	}
+	uid := make([]int, len(keys))    // generation of the API object: a new one after every delete
 	cur := make([]string, len(keys)) // type of the object that exists now
 	exists := make([]bool, len(keys))
 	n := 8 + r.Intn(24)
@@ -695,7 +703,9 @@ func genCtl(r *vh.Rng, id int) Case {
 				cur[i], exists[i] = newType(), true
 			}
 			salt++
-			ops = append(ops, cput(k, cur[i], pickPayload(r, cur[i], r.Chance(3, 4)), salt))
+			u := cput(k, cur[i], pickPayload(r, cur[i], r.Chance(3, 4)), salt)
+			u.UID = uid[i]
+			ops = append(ops, u)
 		}
 		switch {
 		case mode == 1 && x >= 90:
@@ -715,11 +725,13 @@ func genCtl(r *vh.Rng, id int) Case {
 		case x < 36:
 			if exists[i] {
 				exists[i] = false
+				uid[i]++
 				ops = append(ops, cdel(k))
 			}
 		case x < 48: // replaced: delete and re-create, possibly with another type, no worker run in between
 			if exists[i] {
 				exists[i] = false
+				uid[i]++
 				ops = append(ops, cdel(k))
 			}
 			put()
@@ -741,6 +753,11 @@ type keyT struct{ ns, name string }
 
 func up(k keyT, typ, payload string, salt int) Op {
 	return Op{Op: "upsert", NS: k.ns, Name: k.name, Type: typ, Payload: payload, Salt: salt}
+}
+func upU(k keyT, typ, payload string, salt, uid int) Op {
+	o := up(k, typ, payload, salt)
+	o.UID = uid
+	return o
 }
 func get(k keyT) Op { return Op{Op: "get", Key: k.ns + "/" + k.name} }
 func del(k keyT) Op { return Op{Op: "delete", Key: k.ns + "/" + k.name} }
@@ -769,10 +786,10 @@ func witnesses() []Case {
 			up(x, "kubernetes.io/tls", "pairA", 0), get(x), up(x, "nginx.org/ca", "caB", 0), get(x)}},
 		{Class: "witness-ctl-recreated-unsupported", Ops: []Op{
 			cput(x, "kubernetes.io/tls", "pairA", 0), drain, get(x),
-			cdel(x), cput(x, "Opaque", "pairA", 1), drain, get(x),
-			cdel(x), drain, cput(x, "Opaque", "junk", 2), drain, get(x),
-			cput(keyT{"team", "s1"}, "kubernetes.io/tls", "pairB", 3), cput(x, "nginx.org/jwk", "jwk", 4), get(x), drain, get(x),
-			cput(x, "nginx.org/jwk", "nokey", 5), cdel(keyT{"team", "s1"}), drain, get(x)}},
+			cdel(x), cputU(x, "Opaque", "pairA", 1, 1), drain, get(x),
+			cdel(x), drain, cputU(x, "Opaque", "junk", 2, 2), drain, get(x),
+			cput(keyT{"team", "s1"}, "kubernetes.io/tls", "pairB", 3), cputU(x, "nginx.org/jwk", "jwk", 4, 2), get(x), drain, get(x),
+			cputU(x, "nginx.org/jwk", "nokey", 5, 2), cdel(keyT{"team", "s1"}), drain, get(x)}},
 		{Class: "witness-ctl-startup", Ops: []Op{
 			cput(keyT{"team", "s1"}, "kubernetes.io/tls", "pairB", 0), cput(x, "kubernetes.io/tls", "pairA", 0),
 			cput(keyT{"default", "s2"}, "kubernetes.io/tls", "mismatch", 0), cput(keyT{"a", "c"}, "nginx.org/htpasswd", "ok", 0),
@@ -804,6 +821,10 @@ func witnesses() []Case {
 			get(keyT{"team", "s1"}), get(keyT{"team", "s2"}), get(x), unwatch("team"), get(keyT{"team", "s1"}),
 			cdel(keyT{"team", "s1"}), watch("team"), drain, get(keyT{"team", "s1"}), get(keyT{"team", "s2"}),
 			cput(x, "kubernetes.io/tls", "mismatch", 1), drain, get(x), cdel(x), drain, get(x)}},
+		{Class: "witness-recreated", Ops: []Op{ // delete-less re-creation: an update that carries a new UID
+			upU(x, "kubernetes.io/tls", "pairA", 0, 0), get(x), upU(x, "kubernetes.io/tls", "mismatch", 1, 1), get(x),
+			upU(x, "kubernetes.io/tls", "pairB", 2, 2), get(x), upU(x, "kubernetes.io/tls", "pairC", 3, 3), upU(x, "kubernetes.io/tls", "pairA", 4, 4), del(x),
+			upU(x, "nginx.org/jwk", "jwk", 5, 5), upU(x, "nginx.org/jwk", "jwk", 6, 6), get(x), upU(x, "nginx.org/jwk", "nokey", 7, 7), upU(x, "nginx.org/jwk", "jwk", 8, 8)}},
 		{Class: "witness-force", Ops: []Op{
 			up(x, "nginx.org/jwk", "nokey", 0), force(x, "jwt"), get(x), up(x, "nginx.org/jwk", "jwk", 1), get(x),
 			up(x, "nginx.org/jwk", "nokey", 2), get(x), up(x, "nginx.org/jwk", "jwk", 3), del(x), force(x, "basic"),
@@ -889,6 +910,7 @@ func genHistory(r *vh.Rng, id int) Case {
 	n := 6 + r.Intn(22)
 	ops := make([]Op, 0, n)
 	salt := 0
+	uids := make([]int, len(keys)) // bumped by a delete and by a delete-less re-creation
 	for len(ops) < n {
 		i := r.Intn(len(keys))
 		k := keys[i]
@@ -904,13 +926,19 @@ func genHistory(r *vh.Rng, id int) Case {
 			if r.Chance(1, 5) {
 				s = 0 // same bytes as an earlier version
 			}
-			ops = append(ops, up(k, types[i], pickPayload(r, types[i], r.Chance(2, 3)), s))
+			if r.Chance(1, 4) {
+				uids[i]++ // deleted and created again; the store only sees an update carrying a new UID
+			}
+			u := up(k, types[i], pickPayload(r, types[i], r.Chance(2, 3)), s)
+			u.UID = uids[i]
+			ops = append(ops, u)
 			if r.Chance(2, 5) {
 				ops = append(ops, get(k)) // a resource references it right away
 			}
 		case x < 72:
 			ops = append(ops, get(k))
 		case x < 86:
+			uids[i]++
 			ops = append(ops, del(k))
 		case x < 96 && forceOK:
 			if class == "xns" || r.Chance(1, 4) {
